@@ -1,31 +1,76 @@
-(* C06 — clock-file crash states under the observed write protocol. *)
-From Coq Require Import List NArith Bool.
+(* C06 — clock-file crash states under the observed write protocol, the files around the clock, and the crash
+   points of the clock rebuild. *)
+From Coq Require Import List NArith Bool Arith.
 Import ListNotations.
-From GB Require Export Decimal ClockFile.
+From GB Require Export Decimal ClockFile ClockDir Rebuild.
 Local Open Scope N_scope.
 
-Record cstate := mkcstate { s_content : list N; s_loaded : option N; s_repo_opens : bool; s_repo_clock_ok : bool }.
-Record case := mkcase6c { k_proto : proto; k_old : N; k_new : N; k_oldc : list N; k_newc : list N; k_states : list cstate }.
+(* one crash state of a clock write, materialised in a real repository and reopened *)
+Record cstate := mkcstate {
+  s_content : list N;        (* content of the clock file *)
+  s_extra : nat;             (* entries of the clocks directory that are not a clock of the repository *)
+  s_loaded : option N;       (* lamport.LoadPersistedClock on that content *)
+  s_repo_opens : bool;       (* OpenGoGitRepo with the clock loaders *)
+  s_repo_clock_ok : bool;    (* the edit clock is not lower than the stored edit times *)
+  s_usable : bool            (* AllClocks lists exactly the clocks; a new identity, an edit of the existing identity,
+                                a comment and a second edit of the identity all succeed *)
+}.
+(* one crash point of the clock rebuild *)
+Record rcase := mkrcase {
+  r_init : list cfile;       (* clock files before the open: [create; edit] *)
+  r_calls : list (nat * N);  (* the witnesses that reached the storage before the process died *)
+  r_complete : bool;         (* the open ran to its end *)
+  r_after : disk;            (* what is on disk afterwards *)
+  r_reopen : bool;           (* the next open succeeds *)
+  r_final : list cfile;      (* clock files after it *)
+  r_stored : list N          (* highest stored time per clock *)
+}.
+Record case := mkcase6c {
+  k_proto : proto; k_old : N; k_new : N; k_oldc : list N; k_newc : list N;
+  k_events : list fsev; k_indir : list nat;
+  k_states : list cstate; k_rebuild : list rcase }.
 
 Fixpoint nl_eqb (a b : list N) : bool :=
   match a, b with [], [] => true | x :: a', y :: b' => N.eqb x y && nl_eqb a' b' | _, _ => false end.
 Definition on_eqb (a b : option N) := match a, b with Some x, Some y => N.eqb x y | None, None => true | _, _ => false end.
 
+Definition in_dirb (c : case) (p : nat) : bool := existsb (Nat.eqb p) (k_indir c).
+Definition clock_of (s : fs) : list N := match fs_get 0 s with Some c => c | None => [] end.
+Definition extra_of (c : case) (s : fs) : nat :=
+  length (filter (fun pc => in_dirb c (fst pc) && negb (Nat.eqb (fst pc) 0)) s).
+
+Definition rebuild_acts (r : rcase) : list act :=
+  let d0 := mkdisk false (r_init r) in
+  if need d0 then drops_from 0 (r_init r) ++ SetMarker :: flat_map tw (r_calls r) ++ (if r_complete r then [ClearMarker] else [])
+  else [].
+
 (* model: contents written are the decimal forms; each state loads as the model says; the harness explored
-   exactly the reachable states (plus the zero-length file) *)
+   every crash state of the observed file operations (plus the zero-length file); an interrupted rebuild leaves
+   what the action model says *)
 Definition agrees (c : case) : bool :=
   nl_eqb (k_oldc c) (print_u64 (k_old c)) && nl_eqb (k_newc c) (print_u64 (k_new c)) &&
   N.eqb (k_new c) ((k_old c + 1) mod 2 ^ 64) &&
   forallb (fun s => on_eqb (load (s_content s)) (s_loaded s)) (k_states c) &&
-  forallb (fun x => existsb (fun s => nl_eqb (s_content s) x) (k_states c)) (crash_states (k_proto c) (k_oldc c) (k_newc c)).
+  forallb (fun x => existsb (fun s => nl_eqb (s_content s) x) (k_states c)) (crash_states (k_proto c) (k_oldc c) (k_newc c)) &&
+  forallb (fun ms => existsb (fun s => nl_eqb (s_content s) (clock_of ms) && Nat.eqb (s_extra s) (extra_of c ms)) (k_states c))
+          (fs_crashes [(0%nat, k_oldc c)] (k_events c)) &&
+  forallb (fun r => disk_eqb (r_after r) (run (mkdisk false (r_init r)) (rebuild_acts r))) (k_rebuild c).
 
-(* property: in every reachable crash state the repository opens and its clock is not lower than what is stored *)
+Fixpoint all_le (a : list N) (b : list cfile) : bool :=
+  match a, b with [], _ => true | x :: a', y :: b' => N.leb x (valof y) && all_le a' b' | _ :: _, [] => false end.
+
+(* property: in every reachable crash state the repository opens, stays usable and its clock is not lower than
+   what is stored; the same after an open that died while rebuilding the clocks *)
 Definition C06c_ok (c : case) : bool :=
-  forallb (fun s => s_repo_opens s && s_repo_clock_ok s) (k_states c) &&
-  match k_proto c with PRename => true | _ => false end.
+  forallb (fun s => s_repo_opens s && s_repo_clock_ok s && s_usable s && Nat.eqb (s_extra s) 0) (k_states c) &&
+  match k_proto c with PRename => true | _ => false end &&
+  forallb (fun r => r_reopen r && all_le (r_stored r) (r_final r)) (k_rebuild c).
 
 Fixpoint index_filter {A} (f : A -> bool) (i : nat) (l : list A) : list nat :=
   match l with [] => [] | x :: t => if f x then index_filter f (S i) t else i :: index_filter f (S i) t end.
 Definition mismatches (cs : list case) : list nat := index_filter agrees 0 cs.
 Definition failing (cs : list case) : list nat := index_filter C06c_ok 0 cs.
-Definition explain (c : case) := map (fun s => load (s_content s)) (k_states c).
+Definition explain (c : case) :=
+  (map (fun s => load (s_content s)) (k_states c),
+   map (fun ms => (clock_of ms, extra_of c ms)) (fs_crashes [(0%nat, k_oldc c)] (k_events c)),
+   map (fun r => run (mkdisk false (r_init r)) (rebuild_acts r)) (k_rebuild c)).
